@@ -178,6 +178,18 @@ def _job_entry(i):
     return _ACTIVE._run_job(i)
 
 
+def _job_child(i, conn):
+    # self-test of the crash tolerance: VF_TEST_CRASH="<job index>:<marker file>" kills the worker of that scenario once
+    spec = os.environ.get('VF_TEST_CRASH', '')
+    if spec and spec.split(':', 1)[0] == str(i) and not os.path.exists(spec.split(':', 1)[1]):
+        open(spec.split(':', 1)[1], 'w').close()
+        os.kill(os.getpid(), 11)
+    try:
+        conn.send(_ACTIVE._run_job(i))
+    finally:
+        conn.close()
+
+
 class ObRec:
     """picklable result of one obligation"""
 
@@ -401,20 +413,51 @@ class Check:
             # watchdog: a worker stuck inside the solver (z3 does not always honour its timeout) must not hang the check:
             # scenarios still running at the wall-clock deadline are UNDECIDED and the pool is terminated
             wall = float(os.environ.get('VF_WALL_S') or (1500 if self.tier == 'quick' else 7200))
-            pool = mp.get_context('fork').Pool(nproc)
+            # one forked process per scenario (at most nproc at a time), results through a pipe.  A worker that DIES
+            # (libz3 5.1 segfaults once in a few thousand solver calls) is noticed through the end-of-file on its pipe
+            # and its scenario is run again in a fresh process (twice at most; then it is UNDECIDED) — with a process
+            # pool the lost task would only surface at the wall-clock deadline
+            from multiprocessing.connection import wait as _wait
+            ctx = mp.get_context('fork')
+            results, tries, queue, running = {}, {}, list(range(njobs)), {}
+            deadline = self.t0 + wall
             try:
-                pending = [pool.apply_async(_job_entry, (i,)) for i in range(njobs)]
-                outs = []
-                for i, r in enumerate(pending):
-                    try:
-                        outs.append(r.get(timeout=max(1.0, self.t0 + wall - time.time())))
-                    except mp.TimeoutError:
-                        j = self.jobs[i]
-                        self._undecided(j['func_name'], j['label'],
-                                        f'wall-clock budget of {wall:.0f} s exceeded (solver not returning)')
+                while queue or running:
+                    while queue and len(running) < nproc:
+                        i = queue.pop(0)
+                        rd, wr = ctx.Pipe(duplex=False)
+                        pr = ctx.Process(target=_job_child, args=(i, wr))
+                        pr.start()
+                        wr.close()
+                        running[i] = (pr, rd)
+                    ready = _wait([rd for _, rd in running.values()], timeout=1.0)
+                    for i, (pr, rd) in list(running.items()):
+                        if rd not in ready:
+                            continue
+                        try:
+                            results[i] = rd.recv()
+                        except (EOFError, OSError):
+                            tries[i] = tries.get(i, 0) + 1
+                            if tries[i] <= 2:
+                                queue.append(i)
+                            else:
+                                j = self.jobs[i]
+                                self._undecided(j['func_name'], j['label'], 'the worker process died three times (solver crash)')
+                        rd.close()
+                        pr.join(5)
+                        del running[i]
+                    if time.time() > deadline:
+                        for i in list(running) + queue:
+                            j = self.jobs[i]
+                            self._undecided(j['func_name'], j['label'],
+                                            f'wall-clock budget of {wall:.0f} s exceeded (solver not returning)')
+                        break
             finally:
-                pool.terminate()
-                pool.join()
+                for pr, rd in running.values():
+                    pr.terminate()
+                    pr.join(5)
+            self.worker_restarts = sum(tries.values())
+            outs = [results[i] for i in sorted(results)]
         else:
             outs = [self._run_job(i) for i in range(njobs)]
         self.job_times = []
